@@ -17,7 +17,6 @@ package query
 import (
 	"context"
 	"fmt"
-	"math"
 	"time"
 
 	"github.com/blevesearch/bleve/v2/analysis/datetime/optional"
@@ -149,15 +148,16 @@ func (q *DateRangeQuery) Searcher(ctx context.Context, i index.IndexReader, m ma
 }
 
 func (q *DateRangeQuery) parseEndpoints() (*float64, *float64, error) {
-	min := math.Inf(-1)
-	max := math.Inf(1)
+	// an end that is not given stays nil, which means unbounded
+	var min, max *float64
 	if !q.Start.IsZero() {
 		if !isDatetimeCompatible(q.Start) {
 			// overflow
 			return nil, nil, fmt.Errorf("invalid/unsupported date range, start: %v", q.Start)
 		}
 		startInt64 := q.Start.UnixNano()
-		min = numeric.Int64ToFloat64(startInt64)
+		startFloat64 := numeric.Int64ToFloat64(startInt64)
+		min = &startFloat64
 	}
 	if !q.End.IsZero() {
 		if !isDatetimeCompatible(q.End) {
@@ -165,10 +165,11 @@ func (q *DateRangeQuery) parseEndpoints() (*float64, *float64, error) {
 			return nil, nil, fmt.Errorf("invalid/unsupported date range, end: %v", q.End)
 		}
 		endInt64 := q.End.UnixNano()
-		max = numeric.Int64ToFloat64(endInt64)
+		endFloat64 := numeric.Int64ToFloat64(endInt64)
+		max = &endFloat64
 	}
 
-	return &min, &max, nil
+	return min, max, nil
 }
 
 func (q *DateRangeQuery) Validate() error {
